@@ -347,6 +347,14 @@ let dispatch (op : string) (t : toks) : string =
       let (sent, res) = write_try (nat_of_int 3) [n_of_int 1] (nat_of_int 5) resps in
       string_of_int (List.length sent) ^ " " ^
         (match res with AWOk n -> "ok" ^ string_of_int (int_of_nat n) | AWCrcFail -> "crcfail" | AWEOF n -> "eof" ^ string_of_int (int_of_nat n) | AWBlocked -> "blocked")
+  | "telclient" ->
+      let my = get_bytes t in let pw = get_bytes t in let s = get_bytes t in
+      let (sent, r) = telnet_client my pw s in
+      out_list out_bytes sent ^ " " ^ out_option out_bytes r
+  | "telserver" ->
+      (match telnet_server (get_bytes t) with
+       | Accepted (c, r) -> "accepted " ^ out_bytes c ^ " " ^ out_bytes r
+       | AcceptErr n -> "error" ^ string_of_int (int_of_nat n))
   | "agwreads" ->
       let frames = get_list t get_bytes in let sizes = List.map nat_of_int (get_list t get_int) in
       out_list out_bytes (conn_reads [] frames sizes)
